@@ -868,6 +868,13 @@ class EventBus:
 
     async def _run_loop(self) -> None:
         """Main event processing loop"""
+        # The run loop is the root of its own task tree. Its task copies the context of whoever first called dispatch(),
+        # which may be a handler of another bus: it must not inherit that handler's "I hold the global lock" /
+        # "inside a handler" state, or this bus would skip the lock and mis-attribute child events forever.
+        holds_global_lock.set(False)
+        inside_handler_context.set(False)
+        _current_event_context.set(None)
+        _current_handler_id_context.set(None)
         try:
             while self._is_running:
                 try:
